@@ -499,7 +499,23 @@ def u_proceed_enter_exit(c):
     c.prove("enter/installs-new-and-yields-interactor", var.value is new and got is itor)
     exc = c.choose(2)
     args = [None, None, None] if not exc else [ValueError, ValueError("boom"), None]
-    scen = c.choose(3)
+    scen = c.choose(4)
+    if scen == 3:
+        # a close handler raises while the activation ends: the exception propagates, and the collection that was current
+        # at entry is restored all the same (a block left by an exception leaves no handler installed)
+        from pvc.units import UserError
+
+        def bad_exit(it__, a, k):
+            itor.attrs["_exits"].append(1)
+            raise PyRaise(UserError("close handler"))
+
+        be = SummaryFn("exit", bad_exit)
+        be.is_method = True
+        itor.attrs["exit"] = be
+        st, r = run(it, it.getattr(p, "__exit__"), args)
+        c.prove("exit/handler-exception-propagates", st == "raise" and isinstance(r, UserError))
+        c.prove("exit/collection-restored-even-if-a-close-handler-raises", var.value is prev)
+        return
     if scen == 2:
         # a SECOND activation (another generator) was entered after this one and is still suspended when this one ends:
         # the surrounding code never changed its handlers, so it must get back the collection it had at entry
